@@ -17,7 +17,11 @@ EXPLANATION = (
     "only by page_header_size + page_compressed_size, only together with clearing page_loaded; a "
     "whole-page (set-form) cursor update is guarded by page_values_read == 0; (3) skip changes reader "
     "state only through carquet_column_read_batch; (4) every scalar null-bitmap builder sets a bit "
-    "iff def < max_def (one polarity), and the zero-copy branch allocates a zeroed bitmap. Decides "
+    "iff def < max_def (one polarity), and the zero-copy branch allocates a zeroed bitmap; (5) every "
+    "subscript of a per-leaf array (schema levels/leaf indices, row-group chunks), a per-element array, a "
+    "per-projection array (col_readers, batch columns, projected_columns) or the row-group list uses an "
+    "index whose provenance (translating array load, loop bound, range check, lookup function) is in the "
+    "array's own index space - so a projected column's levels, type and null bitmap are its own. Decides "
     "these clauses, not that the dense-values offset is right for nullable pages.")
 
 PR = "src/reader/page_reader.c"
@@ -79,6 +83,11 @@ def run(ctx):
     ctx.clause("C02.2 cursor fields: who may write, joint movement, page advance")
     ctx.clause("C02.3 skip = read-and-discard")
     ctx.clause("C02.4 one null-bitmap polarity")
+    ctx.clause("C02.5 index spaces: projection position, file column, schema element and row group are never mixed")
+    from ..rules import indexspace
+    nsub, ncls = indexspace.check(ctx, P.funcs_under("src/reader/", "src/metadata/schema.c", "src/writer/"))
+    ctx.count("subscripts_of_spaced_arrays", nsub)
+    ctx.floor("C02 subscripts with a classified index space", ncls, 38)
     tables = []
     for fname, file_, kind in (("get_value_size", PR, "cursor"), ("carquet_column_read_batch", CR, "cursor"),
                                ("carquet_column_skip", CR, "cursor"), ("get_type_size", BR, "cursor"),
